@@ -142,6 +142,22 @@ class ModuleAnalysis:
             return
         if isinstance(node, ast.Try):
             g = [node] if any(catches_all(h) for h in node.handlers) else []
+            if node.handlers and not g:
+                # a try with SPECIFIC clauses only (except KeyError: ...): not a guard, but a clause that does not deliver swallows an
+                # exception of that class when the user's function raises it - recorded for the handler-delivers obligation
+                self.specific = getattr(self, "specific", [])
+                self.specific.append(node)
+                try:
+                    for st in node.body:
+                        self.walk(f, st, guards)
+                finally:
+                    self.specific.pop()
+                for h in node.handlers:
+                    for st in h.body:
+                        self.walk(f, st, guards)
+                for st in node.orelse + node.finalbody:
+                    self.walk(f, st, guards)
+                return
             for st in node.body:
                 self.walk(f, st, guards + g)
             for h in node.handlers:
@@ -177,6 +193,8 @@ class ModuleAnalysis:
             guarded = bool(guards)
             if isinstance(fn, ast.Name):
                 if self.is_user_callable(f, fn.id):
+                    for tr in getattr(self, "specific", []):
+                        f.guarded_sites.append((fn.id, tr, node.lineno))
                     if guarded:
                         f.guarded_sites.append((fn.id, guards[-1], node.lineno))
                     else:
